@@ -98,12 +98,11 @@ func runC04(c *Ctx) {
 					}
 					site := fmt.Sprintf("%s.Position in %s at %s", n.Obj().Name(), p.FuncName(fn), p.Pos(x.Pos()))
 					src := unspill(x.Val)
+					if why := posFromPeek(p, src, 0); why != "" {
+						r4.OK(site, why)
+						return
+					}
 					switch y := src.(type) {
-					case *ssa.Call:
-						if g := y.Call.StaticCallee(); g != nil && g.Name() == "peekPos" {
-							r4.OK(site, "from peekPos()")
-							return
-						}
 					case *ssa.FieldAddr:
 						// &tok.Pos : tok must be a token variable allocated in the same loop iteration
 						if al, ok := y.X.(*ssa.Alloc); ok {
@@ -342,6 +341,9 @@ func runeDeltaKind(p *Program, v ssa.Value, depth int) (string, string) {
 	case *ssa.BinOp:
 		if x.Op == token.SUB && asciiSpan(x) {
 			return "the length of a run of bytes each compared equal to an ASCII character", ""
+		}
+		if x.Op == token.SUB && asciiTrimSpan(x) {
+			return "the number of bytes an ASCII cutset trimmed off", ""
 		}
 		if x.Op == token.ADD || x.Op == token.SUB {
 			k1, w1 := runeDeltaKind(p, x.X, depth+1)
@@ -848,4 +850,89 @@ func c04CursorUnits(c *Ctx, r3 *RuleResult) {
 		}
 	}
 
+}
+
+// posFromPeek: v is the result of peekPos(), or the corresponding result of a parser function every return of which
+// hands such a value on (a helper that reads the position together with the pending comment).
+func posFromPeek(p *Program, v ssa.Value, depth int) string {
+	if depth > 3 {
+		return ""
+	}
+	v = unspill(v)
+	idx := 0
+	call, ok := v.(*ssa.Call)
+	if !ok {
+		ex, isEx := v.(*ssa.Extract)
+		if !isEx {
+			return ""
+		}
+		call, ok = ex.Tuple.(*ssa.Call)
+		if !ok {
+			return ""
+		}
+		idx = ex.Index
+	}
+	g := call.Call.StaticCallee()
+	if g == nil {
+		return ""
+	}
+	if g.Name() == "peekPos" {
+		return "from peekPos()"
+	}
+	pk := p.PkgOf(g)
+	if pk == nil || !strings.HasSuffix(pk.PkgPath, "/parser") || len(g.Blocks) == 0 {
+		return ""
+	}
+	rets := returnsOf(g)
+	if len(rets) == 0 {
+		return ""
+	}
+	for _, ret := range rets {
+		vals := returnValues(ret)
+		if idx >= len(vals) || posFromPeek(p, vals[idx], depth+1) == "" {
+			return ""
+		}
+	}
+	return "from peekPos() through " + g.Name() + "()"
+}
+
+// asciiTrimSpan: len(s) - len(strings.TrimLeft/TrimRight/Trim(s, cutset)) with a constant cutset of ASCII characters:
+// the bytes trimmed off are single-byte characters.
+func asciiTrimSpan(x *ssa.BinOp) bool {
+	lenArg := func(v ssa.Value) ssa.Value {
+		call, ok := stripChange(v).(*ssa.Call)
+		if !ok {
+			return nil
+		}
+		if b, ok := call.Call.Value.(*ssa.Builtin); !ok || b.Name() != "len" {
+			return nil
+		}
+		return stripChange(call.Call.Args[0])
+	}
+	whole, part := lenArg(x.X), lenArg(x.Y)
+	if whole == nil || part == nil {
+		return false
+	}
+	call, ok := part.(*ssa.Call)
+	if !ok || len(call.Call.Args) != 2 {
+		return false
+	}
+	switch calleeName(call) {
+	case "strings.TrimLeft", "strings.TrimRight", "strings.Trim":
+	default:
+		return false
+	}
+	if stripChange(call.Call.Args[0]) != whole {
+		return false
+	}
+	cut, ok := constString(call.Call.Args[1])
+	if !ok || cut == "" {
+		return false
+	}
+	for i := 0; i < len(cut); i++ {
+		if cut[i] >= 0x80 {
+			return false
+		}
+	}
+	return true
 }
